@@ -73,6 +73,16 @@ CLAIMED.update({
     ),
 })
 
+CLAIMED.update({
+    "C09": (
+        "must-pass-through check on FoIR (construction of default-less matches dominated by the exhaustiveness check on the same arms/target), closed forms of the set computation and default detection, panic-default exhaustiveness (EXH) over all checked-in generated Go",
+        "For every union, arm subset and order at once: a default-less union match can only be built after exaustiveCheck on the same arms and target (or as a pattern-preserving rebuild); the check rejects iff names(Cases) is not covered by the arms' case ids; "
+        "default arms are detected as BAR UNDER_SCORE inside the offside line; the emitted never-reached panic is exhaustive in every checked-in generated file and is emitted only for default-less matches.",
+        "Relies on dict/slice library specifications (C13/C14) and on inference giving the target its union type (C02). A rewritten exaustiveCheck with another closed form is undecided.",
+        "DESIGN.md §3 C09",
+    ),
+})
+
 NOT_APPLICABLE = {
 }
 
